@@ -92,7 +92,8 @@ pub trait ExRead {
                 && final(buf)@.take(n as int) == (*old(self)).remaining().take(n as int)
                 && final(buf)@.skip(n as int) == old(buf)@.skip(n as int)
                 && (n == 0 ==> old(buf)@.len() == 0 || (*old(self)).remaining().len() == 0),
-            r is Err ==> crate::is_suffix((*final(self)).remaining(), (*old(self)).remaining()),
+            // std::io::Read::read: "If an error is returned then it must be guaranteed that no bytes were read."
+            r is Err ==> (*final(self)).remaining() == (*old(self)).remaining(),
             (*old(self)).reliable() ==> r is Ok;
     fn read_exact(&mut self, buf: &mut [u8]) -> (r: std::io::Result<()>)
         ensures
@@ -122,7 +123,7 @@ pub trait ExBufRead: std::io::Read {
                 && b@.is_prefix_of((*old(self)).remaining())
                 && (b@.len() == 0 <==> (*old(self)).remaining().len() == 0)
                 && (*final(self)).buffered() == b@.len(),
-            r is Err ==> crate::is_suffix((*final(self)).remaining(), (*old(self)).remaining()),
+            r is Err ==> (*final(self)).remaining() == (*old(self)).remaining(),
             (*old(self)).reliable() ==> r is Ok;
     fn consume(&mut self, amt: usize)
         requires amt <= (*old(self)).buffered(),
@@ -262,39 +263,6 @@ pub mod shim {
     }
     impl<W: std::io::Write> WriteBytesShim for W {}
 
-    // ---- transparent stand-ins for std::io::Take / std::io::BufReader (R12) ----------------
-    // Bodies are VERIFIED against the Read/BufRead contracts; that std's adapters behave like
-    // these is an assumption (their documented behaviour).
-    pub struct TakeShim<'a, R: std::io::Read> { pub inner: &'a mut R, pub limit: u64 }
-    impl<'a, R: std::io::Read> TakeShim<'a, R> {
-        #[verifier::external_body]
-        pub fn new(inner: &'a mut R, limit: u64) -> Self { TakeShim { inner, limit } }
-    }
-    impl<'a, R: std::io::Read> std::io::Read for TakeShim<'a, R> {
-        #[verifier::external_body]
-        fn read(&mut self, buf: &mut [u8]) -> (r: std::io::Result<usize>) { unimplemented!() }
-    }
-    impl<'a, R: std::io::BufRead> std::io::BufRead for TakeShim<'a, R> {
-        #[verifier::external_body]
-        fn fill_buf(&mut self) -> (r: std::io::Result<&[u8]>) { unimplemented!() }
-        #[verifier::external_body]
-        fn consume(&mut self, amt: usize) { unimplemented!() }
-    }
-    pub struct BufReaderShim<R: std::io::Read> { pub inner: R }
-    impl<R: std::io::Read> BufReaderShim<R> {
-        #[verifier::external_body]
-        pub fn new(inner: R) -> Self { BufReaderShim { inner } }
-    }
-    impl<R: std::io::Read> std::io::Read for BufReaderShim<R> {
-        #[verifier::external_body]
-        fn read(&mut self, buf: &mut [u8]) -> (r: std::io::Result<usize>) { unimplemented!() }
-    }
-    impl<R: std::io::Read> std::io::BufRead for BufReaderShim<R> {
-        #[verifier::external_body]
-        fn fill_buf(&mut self) -> (r: std::io::Result<&[u8]>) { unimplemented!() }
-        #[verifier::external_body]
-        fn consume(&mut self, amt: usize) { unimplemented!() }
-    }
 }
 
 // ---- crc shim (R11): CRCs are uninterpreted functions of the byte sequence -----------------
